@@ -267,7 +267,12 @@ def run(ctx: Ctx) -> None:
              {"i": "sub", "k": "s", "items": [{"i": "blockC", "text": "/* d */"}, {"i": "kv", "k": "b", "v": {"t": "bare", "w": "2"}}]}]
     cases.append(mk_case(rng, items)); ctx.corpus_cases += 1
     for _ in range(ctx.n(500, 12000)):
-        cases.append(mk_case(rng, gen_items(rng, rng.choice([0, 1, 2, 3]))))
+        for _try in range(50):
+            items = gen_items(rng, rng.choice([0, 1, 2, 3]))
+            # inputs of the known-finding classes D28 / D32 stay out of the compared stream (a few pass, to confirm the class)
+            if not (first_block_nested(items) or _d32({"input": {"items": items}})) or rng.random() < 0.03:
+                break
+        cases.append(mk_case(rng, items))
     process(ctx, cases)
 
 
@@ -309,5 +314,24 @@ def _w32() -> bool:
     return NativeFormatter().to_string(s).count("/* c */") == 1
 
 
-KNOWN_CLASSES = {"first_block_comment_nested": _d28, "same_block_comment_two_levels": _d32}
-WITNESSES = {"D28": _w28, "D32": _w32}
+def _d27(v: dict) -> bool:
+    t = v["input"].get("text", "")
+    return re.search(r"\*//", t) is not None or any(it["i"] == "blockC" and re.search(r"(?<!:)//", it["text"]) for it in _all_items(v["input"].get("items", [])))
+
+
+def _all_items(items):
+    for it in items:
+        yield it
+        if it["i"] == "sub":
+            yield from _all_items(it["items"])
+
+
+def _w27() -> bool:
+    from dictIO import NativeFormatter, NativeParser, SDict
+    reset_globals()
+    s = NativeParser().parse_string("/* a */// b\nk 1;\n", SDict())
+    return "/* a */" not in NativeFormatter().to_string(s)
+
+
+KNOWN_CLASSES = {"first_block_comment_nested": _d28, "same_block_comment_two_levels": _d32, "adjacent_comments": _d27}
+WITNESSES = {"D28": _w28, "D32": _w32, "D27": _w27}
